@@ -140,7 +140,17 @@ func (e *Env) syncCloneSet(cs *kruisev1alpha1.CloneSet) string {
 	}
 	// 3. update: recreate one old pod within the unavailability budget
 	if updating && unavailableNow < MU {
-		sort.Slice(olds, func(i, j int) bool { return !podReady(olds[i]) && podReady(olds[j]) })
+		// kruise's default update order (kubecontroller.ActivePods): not-ready pods first, then the youngest
+		sort.SliceStable(olds, func(i, j int) bool {
+			if podReady(olds[i]) != podReady(olds[j]) {
+				return !podReady(olds[i])
+			}
+			ti, tj := olds[i].CreationTimestamp, olds[j].CreationTimestamp
+			if !ti.Equal(&tj) {
+				return tj.Before(&ti)
+			}
+			return olds[i].Name > olds[j].Name
+		})
 		must(e.C.Delete(ctx(), olds[0]))
 		return "cs-recreate-old-pod"
 	}
